@@ -69,6 +69,8 @@ def cases(run: Run):
                     "solver": rng.choice(["universal", "universal", "battin"]), "extra_prev": rng.randint(0, 2),
                     # the configured minimum spacing between observations, and now and then a pair closer than that with older observations stored
                     "spacing": rng.choice([60, 60, 120, 300, 10]), "gap_s": rng.choice([None, None, None, 60, 30, 90, 120])})
+        if rng.random() < 0.3 and a < 9000:
+            out[-1]["episode"] = True  # low orbits: the refused first attempt is 1.03 periods after the old observation
     return out
 
 
@@ -151,12 +153,20 @@ def impl_iod(c):
 
     period = 2 * math.pi * math.sqrt(c["a"] ** 3 / MU)
     t1 = 600
+    t_old = t_a = None
+    if c.get("episode"):
+        # one detection episode on one IOD object: an attempt that is refused (the only stored observation is more than a period old), a newer
+        # observation arrives, the next attempt must use THAT one - position and epoch alike
+        t_old, t_a = 600, 600 + int(round(1.03 * period / 60.0)) * 60
+        t1 = t_a + 60
     gap = max(60, int(round(c["gap"] * period / 60.0)) * 60)
     if c.get("gap_s"):
         gap = int(c["gap_s"])
     t2 = t1 + gap
     x0 = kepler_state(c["a"], c["e"], c["i"], c["O"], c["w"], c["nu"])
     xs = {t: np.asarray(solveKeplerProblemUniversal(x0, float(t))) for t in (t1, t2)}
+    if t_old is not None:
+        xs[t_old], xs[t_a] = np.asarray(solveKeplerProblemUniversal(x0, float(t_old))), np.asarray(solveKeplerProblemUniversal(x0, float(t_a)))
     extra_times = [t1 - 120 * (k + 1) for k in range(c["extra_prev"])]
     for t in extra_times:
         xs[t] = np.asarray(solveKeplerProblemUniversal(x0, float(t)))
@@ -171,19 +181,28 @@ def impl_iod(c):
 
     db = ResonaateDatabase(db_path="sqlite://")
     db.insertData(AgentModel(unique_id=10001, name="target"), AgentModel(unique_id=60001, name="radar"))
+    solver = lambertUniversal if c["solver"] == "universal" else lambertBattin
+    iod = iod_module.LambertIOD(c.get("spacing", 60), solver, 10001, datetimeToJulianDate(START))
+    first_attempt = None
+    if t_old is not None:
+        extra_times = [t for t in extra_times if t > t_a]
+        ob, when = observe(t_old)
+        db.insertData(Epoch(julian_date=float(ob.julian_date), timestampISO=when.isoformat()))
+        db.insertData(ob)
+        with mock.patch.object(iod_module, "getDBConnection", lambda: db):
+            sol0 = iod.determineNewEstimateState([observe(t_a)[0]], ScenarioTime(0.0), ScenarioTime(float(t_a)))
+        first_attempt = {"converged": bool(sol0.convergence), "message": str(sol0.message)}
     for t in sorted(extra_times) + [t1]:
         ob, when = observe(t)
         db.insertData(Epoch(julian_date=float(ob.julian_date), timestampISO=when.isoformat()))
         db.insertData(ob)
     second, _ = observe(t2)
-    solver = lambertUniversal if c["solver"] == "universal" else lambertBattin
-    iod = iod_module.LambertIOD(c.get("spacing", 60), solver, 10001, datetimeToJulianDate(START))
     with mock.patch.object(iod_module, "getDBConnection", lambda: db):
         sol = iod.determineNewEstimateState([second], ScenarioTime(0.0), ScenarioTime(float(t2)))
     jd2 = float(ScenarioTime(float(t2)).convertToJulianDate(datetimeToJulianDate(START)))
     jd1 = float(datetimeToJulianDate(START + timedelta(seconds=t1)))
     return {"tof_as_computed": (jd2 - jd1) * 86400.0, "converged": bool(sol.convergence), "message": str(sol.message), "state": [float(v) for v in sol.state_vector] if sol.state_vector is not None else None,
-            "truth": [float(v) for v in xs[t2]], "gap_fraction": gap / period, "gap": gap}
+            "truth": [float(v) for v in xs[t2]], "gap_fraction": gap / period, "gap": gap, "first_attempt": first_attempt}
 
 
 def impl_run(c):
@@ -326,7 +345,7 @@ def search(run: Run):
 def main():
     run = Run(
         PID,
-        ["RV.Props.C20"],
+        ["RV.Props.C20", "RV.Bridge.Lambert"],
         ["RV/Model/Lambert.lean"],
         "Lean 4 theorems (the velocities _calculateVelocities returns close the arc exactly under the Lagrange-coefficient propagation with f*gdot - fdot*g = 1, carry one angular "
         "momentum and lie in the transfer plane, for any coefficients the iteration ends with; radarObs2eciPosition inverts the measurement model for orthogonal frame matrices; "
